@@ -495,3 +495,26 @@ func treeBytes(t *fstree.Tree) int64 {
 	}
 	return n
 }
+
+// SanitizeKnown rewrites the entries that would trigger the recorded C01
+// findings (names over ~235 bytes; directories - explicit or implied by a
+// path - whose name is not valid UTF-8), for checks that are about something
+// else and must stay inside the domain where transfers succeed.
+func SanitizeKnown(t *fstree.Tree) {
+	for i := range t.Entries {
+		e := &t.Entries[i]
+		p := string(e.Path)
+		parts := strings.Split(p, "/")
+		changed := false
+		for j, c := range parts {
+			isDir := j < len(parts)-1 || e.Type == "d"
+			if len(c) > 200 || (isDir && !utf8.ValidString(c)) {
+				parts[j] = fmt.Sprintf("s%x", kernel.Derive(7, c)&0xffffff)
+				changed = true
+			}
+		}
+		if changed {
+			e.Path = fstree.Name(strings.Join(parts, "/"))
+		}
+	}
+}
